@@ -433,7 +433,7 @@ func (c *Check) priceSkeleton(rule string) {
 	prov := "(.ServiceBinding.Provider " + bindingP + ")"
 	pricing := fmt.Sprintf("(%s %s %s)", gPricing.Name, name, prov)
 	dt := "(types.GetDiscountByTime " + pricing + " BlockTime)"
-	dv := fmt.Sprintf("(types.GetDiscountByVolume %s (keeper.Keeper.GetRequestVolume %s %s %s))", pricing, consumerP, name, prov)
+	dv := fmt.Sprintf("(types.GetDiscountByVolume %s (%s %s %s %s))", pricing, c.nVolume(), consumerP, name, prov)
 	n := 0
 	var problems []string
 	for _, er := range c.expandedReturns(f) {
@@ -576,7 +576,7 @@ func (c *Check) pricingTextPairs(rule string) {
 				continue
 			}
 			n++
-			ok := changed && setP != nil && setP.String() == fmt.Sprintf("(res 0 (keeper.Keeper.ParsePricing %s))", text)
+			ok := changed && setP != nil && setP.String() == fmt.Sprintf("(res 0 (%s %s))", c.nParsePricing(), text)
 			if ok {
 				// stored under the binding's own key
 				nm, pv := field("ServiceBinding", "ServiceName", B), field("ServiceBinding", "Provider", B)
